@@ -150,3 +150,43 @@ class patched:
     def __exit__(self, *a):
         for m, k in self.saved:
             setattr(m, k, self.orig)
+
+
+# ------------------------------------------------------------------------------------------------
+# loop-carried state (for inductive arguments over a loop whose body is proved as a single step)
+# ------------------------------------------------------------------------------------------------
+def loop_carried(func):
+    """for every `for` loop directly in the body of `func` (re-read from its source on every run): the names whose value can flow from one
+    iteration to the next, i.e. names assigned (or augmented-assigned) in the loop body that may be read in the body before being assigned
+    in the same iteration.  -> list of (lineno, sorted carried names, sorted loop targets)
+    Conservative: a name read anywhere in a statement before the first statement that assigns it counts as read-before-assignment; an
+    augmented assignment reads its target; conditionally assigned names count as carried."""
+    import ast, inspect, textwrap
+    tree = ast.parse(textwrap.dedent(inspect.getsource(func)))
+    fn = tree.body[0]
+    out = []
+    for node in ast.walk(fn):
+        if not isinstance(node, ast.For):
+            continue
+        targets = {n.id for n in ast.walk(node.target) if isinstance(n, ast.Name)}
+        assigned_anywhere = set()
+        for st in node.body:
+            for n in ast.walk(st):
+                if isinstance(n, ast.Name) and isinstance(n.ctx, ast.Store): assigned_anywhere.add(n.id)
+                if isinstance(n, ast.AugAssign) and isinstance(n.target, ast.Name): assigned_anywhere.add(n.target.id)
+        definitely = set(targets)
+        carried = set()
+        for st in node.body:
+            reads = {n.id for n in ast.walk(st) if isinstance(n, ast.Name) and isinstance(n.ctx, ast.Load)}
+            if isinstance(st, ast.AugAssign) and isinstance(st.target, ast.Name): reads.add(st.target.id)
+            for n in ast.walk(st):
+                if isinstance(n, ast.AugAssign) and isinstance(n.target, ast.Name): reads.add(n.target.id)
+            carried |= {r for r in reads if r in assigned_anywhere and r not in definitely}
+            if isinstance(st, (ast.Assign, ast.AnnAssign, ast.AugAssign)):
+                tg = st.targets if isinstance(st, ast.Assign) else [st.target]
+                for t in tg:
+                    for n in ast.walk(t):
+                        if isinstance(n, ast.Name): definitely.add(n.id)
+            # assignments nested in compound statements (if / with / try) are not counted as definite
+        out.append((node.lineno, sorted(carried), sorted(targets)))
+    return out
